@@ -78,7 +78,7 @@ impl Res {
         match self {
             Res::Ok(v) => match V::from_cel(v) {
                 Some(x) => Sum::Val(x.canon()),
-                None => Sum::Odd(format!("{:?}", v)),
+                None => Sum::Odd(canon_cel(v)),
             },
             Res::Err(e) => Sum::Err(err_class(e).to_string()),
             Res::Panic(p) => Sum::Panic(format!("{}@{}: {}", p.kind(), p.site(), p.msg)),
@@ -189,4 +189,26 @@ pub fn binds_json(binds: &[(String, V)]) -> serde_json::Value {
         m.insert(k.clone(), serde_json::Value::String(v.canon()));
     }
     serde_json::Value::Object(m)
+}
+
+/// Canonical text of any CelValue, including the ones outside the language's value domain
+/// (error values nested in containers, identifiers, bytecode): map keys sorted, errors by
+/// variant only.
+pub fn canon_cel(v: &CelValue) -> String {
+    match v {
+        CelValue::List(l) => format!("[{}]", l.iter().map(canon_cel).collect::<Vec<_>>().join(", ")),
+        CelValue::Map(m) => {
+            let mut ks: Vec<&String> = m.keys().collect();
+            ks.sort();
+            format!(
+                "{{{}}}",
+                ks.iter().map(|k| format!("{:?}: {}", k, canon_cel(&m[*k]))).collect::<Vec<_>>().join(", ")
+            )
+        }
+        CelValue::Err(e) => format!("Err({})", err_class(e)),
+        other => match V::from_cel(other) {
+            Some(x) => x.canon(),
+            None => format!("{:?}", other),
+        },
+    }
 }
